@@ -103,6 +103,14 @@ class K1:
     self.v = _ctor_arg('K1.__init__', v)
 
 
+class K1S(K1):
+  """A subclass (never a detour source or destination itself) whose own
+  `__new__` follows the `super().__new__` convention."""
+
+  def __new__(cls, *args, **kwargs):
+    return super().__new__(cls)
+
+
 class K2:
   def __init__(self, v=0):
     self.v = _ctor_arg('K2.__init__', v)
@@ -133,8 +141,26 @@ class V:
 
 UW = pg.wrap(U)
 VW = pg.wrap(V)
+
+
+class _FrozenMeta(type):
+  def __setattr__(cls, name, value):
+    raise TypeError(f'class {cls.__name__} does not accept attributes')
+
+
+class IM2(metaclass=_FrozenMeta):
+  """A class that rejects `__new__` (like a builtin / extension type does)."""
+
+  def __init__(self, v=0):
+    self.v = v
+
+
 DETOUR_POOL = {'K1': K1, 'K2': K2, 'K3': K3, 'kfn': kfn, 'U': U, 'V': V,
-               'UW': UW, 'VW': VW}
+               'UW': UW, 'VW': VW,
+               # sources that are classes (valid by the documented argument
+               # check) but cannot be patched: entering fails half-way
+               'IM1': frozenset, 'IM2': IM2, 'K1S': K1S}
+UNPATCHABLE = ('IM1', 'IM2')
 WRAPPERS = {'UW': ('U', UW), 'VW': ('V', VW)}
 
 
@@ -145,6 +171,7 @@ class PA(pg.Object):
 
 class CO(pg.ContextualObject):
   x: int = 0
+  t: int = 0          # (a plain field: rebound by the event 'rebind')
   y: int = pg.contextual_attribute()
   z: int = pg.contextual_attribute(default=-1)
   w: int = pg.contextual_attribute(default=-2)
@@ -622,18 +649,27 @@ _register(Manager(
 
 # -- detour / apply_wrappers (rule: outer precedence + transitivity) ---------
 def _detour_gen(rng, env, state):
-  if rng.random() < 0.06:
+  r = rng.random()
+  if r < 0.06:
     return {'map': [[rng.choice([1, 'K1', None]), 'K2']], 'invalid': True}
-  srcs = rng.sample(['K1', 'K2', 'K3'], rng.randint(1, 3))
+  # (0 mappings: an empty collection is a legal argument)
+  srcs = rng.sample(['K1', 'K2', 'K3'], rng.choice([0, 1, 1, 2, 2, 3, 3]))
   out = []
   for s in srcs:
     dest = rng.choice([d for d in ('K1', 'K2', 'K3', 'kfn') if d != s])
     out.append([s, dest])
+  if r < 0.16:
+    # a source class that passes the documented argument check but cannot be
+    # patched, anywhere among valid mappings: entering raises after the scope
+    # machinery has started to work
+    out.insert(rng.randint(0, len(out)),
+               [rng.choice(UNPATCHABLE), rng.choice(['K1', 'K2', 'kfn'])])
+    return {'map': out, 'invalid': 'unpatchable'}
   return {'map': out}
 
 
 def _detour_make(args, env):
-  if args.get('invalid'):      # the source is not a class: documented TypeError
+  if args.get('invalid') is True:   # the source is not a class: documented TypeError
     return pg.detour([(s, DETOUR_POOL[d]) for s, d in args['map']])
   return pg.detour([(DETOUR_POOL[s], DETOUR_POOL[d]) for s, d in args['map']])
 
@@ -650,6 +686,8 @@ def _detour_push_pairs(state, pairs):
 
 
 def _detour_enter(state, args, env):
+  if args.get('invalid') == 'unpatchable':
+    return 'may'          # (not listed under Raises; the setting cannot be made effective)
   return 'must' if args.get('invalid') else 'no'
 
 
@@ -662,8 +700,17 @@ _register(Manager(
 
 
 def _aw_gen(rng, env, state):
-  ws = rng.sample(['UW', 'VW'], rng.randint(1, 2))
+  # (an empty list is a legal argument: "wrapper classes to use"; only None
+  # stands for all registered wrapper classes)
+  ws = rng.sample(['UW', 'VW'], rng.choice([0, 1, 1, 1, 2, 2]))
   return {'wrappers': sorted(ws), 'where': rng.random() < 0.3}
+
+
+class _AWManager(Manager):
+
+  def label(self, state, args, env):
+    return self.name + (':empty-list' if not args['wrappers'] and not args['where']
+                        else '')
 
 
 def _aw_make(args, env):
@@ -674,7 +721,7 @@ def _aw_make(args, env):
   return pg.apply_wrappers(classes)
 
 
-_register(Manager(
+_register(_AWManager(
     'apply_wrappers', 'process', 'outer-precedence+transitive', _aw_gen, _aw_make,
     lambda state, args, env: _detour_push_pairs(
         state, [(WRAPPERS[w][0], w) for w in args['wrappers']]),
@@ -1107,6 +1154,21 @@ _event('propagated-function-raises', 'contextual_override', _calls(
     lambda env: pg.with_contextual_override(_raiser)(),
     lambda env: pg.contextual_value('c17-undefined'),
     lambda env: env.co.c17_undefined))
+
+
+# The object governed by `ContextualObject.override` is modified inside the
+# block (plain field, every rebind entry point); nothing raises, and the
+# overrides are not documented to depend on the object's fields.
+def _co_setattr(env):
+  env.co.t = env.tick()
+
+
+_event('rebind', 'ContextualObject.override', _calls(
+    lambda env: env.co.rebind(t=env.tick()),
+    lambda env: env.co.rebind({'t': env.tick()}, skip_notification=True),
+    lambda env: env.co.rebind(t=env.tick(), notify_parents=False),
+    lambda env: env.co.rebind(lambda k, v, p: v, raise_on_no_change=False),
+    _co_setattr))
 # A view / an extension method raises while `pg.view(..., **kwargs)` /
 # `pg.to_html` have their options in effect.
 _event('view-method-raises', 'view_options', _calls(
@@ -1182,8 +1244,13 @@ def _timed_raise():
 # ---------------------------------------------------------------------------
 class Observer:
   def __init__(self, name, mgr, kind, observe, expect, scope='thread',
-               heavy=False, solo_only=False, intrusive=False, perturbs=None):
+               heavy=False, solo_only=False, intrusive=False, perturbs=None,
+               residue=False):
     self.name, self.mgr, self.kind = name, mgr, kind
+    # residue observers look at behaviour that no setting governs where their
+    # expectation is not a don't-care (the same value in every such state): a
+    # deviation is what some block left behind, whenever it is noticed
+    self.residue = residue
     # (state) -> True where evaluating the observer would itself change a
     # setting by documented behaviour (it is not evaluated there)
     self.perturbs = perturbs
@@ -1484,6 +1551,11 @@ def _new_expect(names):
 _obs('detour.new', 'detour', 'behaviour',
      lambda env: tuple(_describe_new(n) for n in ('K1', 'K2', 'K3')),
      _new_expect(('K1', 'K2', 'K3')))
+# A class that is no detour source behaves the same before, inside (unless
+# its base is being detoured: not documented) and after any detour block.
+_obs('detour.subclass-new', 'detour[subclass-new]', 'behaviour',
+     lambda env: _describe_new('K1S'),
+     lambda st, env: DONTCARE if 'K1' in st['detour'] else 'K1S', residue=True)
 _obs('wrappers.new', 'apply_wrappers', 'behaviour',
      lambda env: tuple(_describe_new(n) for n in ('U', 'V')),
      _new_expect(('U', 'V')), scope='process')
@@ -1678,6 +1750,26 @@ class ExpectEnv:
     self.tid, self.process_ok, self.solo = -1, process_ok, False
     self.foreign_process_de = foreign_process_de
     self.fmt_d = like.fmt_d
+    self.dectx = {}      # (the fresh thread's own Env has no contexts)
+
+
+# Per-thread settings that are keyed by an object (the overrides of a
+# ContextualObject, the decisions of a per-thread DynamicEvaluationContext):
+# these observers only read the governed objects of the Env they are given, so
+# another thread can evaluate them on the very same objects.
+SAME_OBJECT_OBSERVERS = ('ctxov.attribute', 'objov.scope', 'dectx.evaluate')
+
+
+def same_object_view(env):
+  """What the calling thread sees on the governed objects of `env`."""
+  out = {}
+  for name in SAME_OBJECT_OBSERVERS:
+    o = OBS_BY_NAME[name]
+    try:
+      out[name] = o.observe(env)
+    except Exception as e:  # pylint: disable=broad-except
+      out[name] = ('observer-raised', type(e).__name__)
+  return out
 
 
 # Observers costing more than ~0.1 ms: evaluated at the blocks of their own
@@ -1685,7 +1777,8 @@ class ExpectEnv:
 COSTLY = {'typecheck.typed-new', 'partial.ctor-rejected', 'sealed.rebind',
           'autocall.call', 'ctxov.attribute', 'strfmt.str', 'reprfmt.repr',
           'codectx.evaluate', 'perm.evaluate', 'de.oneof', 'de.process-scope-effective',
-          'viewopt.to_html'}
+          'viewopt.to_html', 'detour.subclass-new'}
+RESIDUE_MECHS = {o.mgr for o in OBSERVERS if o.residue}
 
 
 def applicable(obs, env, full, focus=None):
